@@ -710,16 +710,25 @@ Proof.
     eapply append_scopes_ok; [exact H|]. eapply newNamedObject_ok; [exact H1|]. constructor.
 Qed.
 
+Lemma land255_lt x : N.land x 0xff < 256.
+Proof. change 0xff with (N.ones 8). rewrite N.land_ones. apply N.mod_lt. discriminate. Qed.
+
+Lemma le_bytes_bytes cnt : forall v, Forall (fun b => b < 256) (Parser.le_bytes cnt v).
+Proof. induction cnt as [|cnt IH]; intros v; cbn [Parser.le_bytes]; constructor; auto using land255_lt. Qed.
+
 Lemma table_image_ok payload : Forall (fun b => b < 256) payload -> N.of_nat (length payload) + 2048 <= two32 -> image_ok (table_image payload).
 Proof.
   intros Hb Hl. unfold image_ok, table_image. split.
-  - repeat (apply Forall_app; split); auto.
-    + repeat constructor.
-    + cbn [le_bytes]. repeat constructor; rewrite ?LexRoundtrip_land; try (apply N.lt_le_trans with (m := 256); [|lia]);
-        try (change 255 with (N.ones 8); rewrite N.land_ones; apply N.mod_lt; discriminate).
-    + repeat constructor.
-    + apply Forall_forall. intros x Hx. apply repeat_spec in Hx. subst. lia.
-  - rewrite !app_length, repeat_length. cbn [length le_bytes]. unfold aml_sizeofSDTHeader in *. unfold two32 in *. lia.
+  - apply Forall_app. split; [repeat constructor|].
+    apply Forall_app. split; [apply le_bytes_bytes|].
+    apply Forall_app. split; [repeat constructor|].
+    apply Forall_app. split; [|exact Hb].
+    apply Forall_forall. intros x Hx. apply repeat_spec in Hx. subst. reflexivity.
+  - rewrite !app_length, repeat_length.
+    assert (E4 : forall v, length (Parser.le_bytes 4 v) = 4%nat) by reflexivity. rewrite E4.
+    change (length [68; 83; 68; 84]) with 4%nat. change (length [2]) with 1%nat.
+    change (N.to_nat aml_sizeofSDTHeader - 9)%nat with 27%nat.
+    unfold two32 in *. lia.
 Qed.
 
 Lemma load_tables_ok payloads : forall tree earlier handle class t imgs,
